@@ -54,7 +54,7 @@ func genRuntimeCase(rt *rapid.T) Case {
 	c.Rows = rows
 	// the dimensions of the main test that do not combine with the failing expression
 	c.ColMode, c.Cols, c.Distinct, c.Handle, c.Config, c.PresetID, c.StopAt = "", nil, false, "", "", 0, 0
-	c.Or = nil
+	c.Or, c.CallbackWrites = nil, ""
 	c.Expr = rapid.SampledFrom([]string{"where", "where", "select"}).Draw(rt, "expr")
 	// mostly orderings SQLite can stream (no sorter): the failure then comes in mid iteration
 	c.Order = rapid.SampledFrom([]string{"none", "none", "id", "pk", "id desc", "pk desc", "a desc, id", "b, a desc"}).Draw(rt, "order2")
